@@ -142,6 +142,8 @@ pub enum Step {
     SetParent { slot: usize, parent: usize },
     DelParent { slot: usize },
     Vis { client: usize, slot: usize, visible: bool },
+    /// several `set_visibility` calls in a row (repeated and mutually cancelling calls inside one tick window)
+    VisBurst { client: usize, slot: usize, pattern: Vec<bool> },
     PreSpawn { client: usize, slot: usize, kill: bool, gap: bool },
     EmitS { kind: SK, mode: u8, target: usize, refslot: usize },
     EmitC { client: usize, kind: CK, refslot: usize },
@@ -189,6 +191,8 @@ pub struct Oracles {
     pub adoption: bool,
     /// C09: nothing of an old session is applied / delivered / kept
     pub session: bool,
+    /// C12 end to end: MutateTickReceived / ServerMutateTicks vs delivered messages
+    pub mutate_ticks: bool,
 }
 
 impl Oracles {
@@ -205,6 +209,7 @@ impl Oracles {
             unauth: true,
             adoption: true,
             session: true,
+            mutate_ticks: true,
         }
     }
 }
